@@ -60,6 +60,7 @@ fn run_case(case: &Case, out: &mut Out) {
     "convert" => suites::convert_suite::run(case, out),
     "share" => suites::share_suite::run(case, out),
     "multi" => suites::multi_suite::run(case, out),
+    "locks" => suites::locks_suite::run(case, out),
     s => panic!("unknown suite {}", s),
   }
 }
